@@ -77,7 +77,7 @@ KEY_SETS = {
     # last triple: keys that begin with the characters of dir_archive's own K_ prefix, and a negative int
     # (klepto's hashmap produces negative ints)
     'pickle': [('a-b', 'a_b', 'c'), (1, '1', 'c'), ((1, 2), '(1, 2)', 'c'), (PK1, MD5, 'c'), ('Kelvin', '_hidden', -7)],
-    'hostile': [('x/y', '', '.')],
+    'hostile': [('', 'x/y', '.')],
     'json': [('a-b', 'a_b', 'c'), ('1', '(1, 2)', 'c')],
     'source': [('a-b', 'a_b', 'c'), (1, '1', 'c')],
     'sql': [(1, '1', b'\x01'), ('a-b', 'a_b', 'c'), ('Kelvin', '_hidden', -7)],
